@@ -7,6 +7,7 @@ package media
 import (
 	"errors"
 	"strings"
+	"sync"
 	"sync/atomic"
 	"time"
 
@@ -49,6 +50,7 @@ type Stream struct {
 	size                 uint64 // 流已经接收到的输入（字节）
 	status               int32  // 流状态
 	consumerSequenceSeed uint32
+	joinLock             sync.Mutex   // 使"缓存+广播"与"回放缓存+登记"互斥，新消费者不丢包也不重包
 	consumptions         consumptions // 消费者列表
 	cache                packCache    // 媒体包缓存
 	rtpDemuxer           rtpDemuxer
@@ -207,8 +209,10 @@ func (s *Stream) WriteRtpPacket(packet *rtp.Packet) error {
 
 	atomic.AddUint64(&s.size, uint64(packet.Size()))
 
+	s.joinLock.Lock()
 	keyframe := s.cache.CachePack(packet)
 	s.consumptions.SendToAll(packet, keyframe)
+	s.joinLock.Unlock()
 
 	s.rtpDemuxer.WriteRtpPacket(packet)
 	return nil
@@ -234,8 +238,10 @@ func (s *Stream) WriteFlvTag(tag *flv.Tag) error {
 		return statusErrors[status]
 	}
 
+	s.joinLock.Lock()
 	keyframe := s.flvCache.CachePack(tag)
 	s.flvConsumptions.SendToAll(tag, keyframe)
+	s.joinLock.Unlock()
 	return nil
 }
 
@@ -278,10 +284,12 @@ func (s *Stream) startConsume(consumer Consumer, packetType PacketType, extra st
 		cache = s.flvCache
 	}
 
+	s.joinLock.Lock()
 	if useGopCache {
 		c.sendGop(cache) // 新消费者，先发送gop缓存
 	}
 	cs.Add(c)
+	s.joinLock.Unlock()
 
 	go c.consume()
 	if atomic.LoadInt32(&s.status) != StreamOK { // 加入期间流已关闭，关闭清扫可能已错过该消费者
